@@ -214,6 +214,55 @@ impl Family for LockFam {
         }
     }
 
+    fn objects_of(op: &LockOp) -> Vec<u32> {
+        match op {
+            LockOp::MLock(i) | LockOp::MTry(i) | LockOp::MSet(i, _) | LockOp::MUnlock(i) => vec![0x100 + *i as u32],
+            LockOp::RRead(i) | LockOp::RTryRead(i) | LockOp::RWrite(i) | LockOp::RTryWrite(i) | LockOp::RSet(i, _) | LockOp::RUnlockR(i) | LockOp::RUnlockW(i) => vec![0x200 + *i as u32],
+        }
+    }
+    /// unlock -> every later acquisition of the same lock (write unlock -> later read or write
+    /// acquisition; read unlock -> later write acquisition)
+    fn hb_must(p: &Program<LockFam>, log: &[Entry<LockRes>]) -> Vec<(usize, usize)> {
+        let mut out = Vec::new();
+        let mut last_m_unlock: std::collections::HashMap<usize, usize> = Default::default();
+        let mut last_w_unlock: std::collections::HashMap<usize, usize> = Default::default();
+        let mut r_unlocks: std::collections::HashMap<usize, Vec<usize>> = Default::default();
+        for (i, e) in log.iter().enumerate() {
+            let EKind::Ret(GRes::R(r)) = &e.kind else { continue };
+            let GOp::Op(op) = &p.threads[e.thread][e.op] else { continue };
+            let got = matches!(r, LockRes::Locked(..));
+            match op {
+                LockOp::MUnlock(m) => {
+                    last_m_unlock.insert(*m, i);
+                }
+                LockOp::MLock(m) | LockOp::MTry(m) if got => {
+                    if let Some(u) = last_m_unlock.get(m) {
+                        out.push((*u, i));
+                    }
+                }
+                LockOp::RUnlockW(l) => {
+                    last_w_unlock.insert(*l, i);
+                    r_unlocks.remove(l);
+                }
+                LockOp::RUnlockR(l) => r_unlocks.entry(*l).or_default().push(i),
+                LockOp::RRead(l) | LockOp::RTryRead(l) if got => {
+                    if let Some(u) = last_w_unlock.get(l) {
+                        out.push((*u, i));
+                    }
+                }
+                LockOp::RWrite(l) | LockOp::RTryWrite(l) if got => {
+                    if let Some(u) = last_w_unlock.get(l) {
+                        out.push((*u, i));
+                    }
+                    for u in r_unlocks.get(l).cloned().unwrap_or_default() {
+                        out.push((u, i));
+                    }
+                }
+                _ => {}
+            }
+        }
+        out
+    }
     fn m_init(cfg: &LockCfg, _n: usize) -> LockM {
         LockM {
             m: (0..cfg.mutexes).map(|_| MMutex { holder: None, data: 0 }).collect(),
